@@ -4,12 +4,14 @@ package main
 // collections) and the measured distribution printed by `harness gen`.
 
 import (
+	"fmt"
 	"math/big"
 	"regexp"
 	"strings"
 	"time"
 
 	"cosmossdk.io/collections"
+	"cosmossdk.io/math"
 	sdk "github.com/cosmos/cosmos-sdk/types"
 
 	"github.com/tendermint/fundraising/x/fundraising/types"
@@ -30,6 +32,8 @@ type aucInfo struct {
 	ends       []int64
 	releases   []int64 // release instants of the vesting schedule
 	maxExt     uint32
+	rate       *big.Int // batch only: extended round rate (raw)
+	matchedLen int64    // MatchedBidsLen entry (0 if none)
 }
 
 func (a *aucInfo) lastEnd() int64 { return a.ends[len(a.ends)-1] }
@@ -123,7 +127,7 @@ func (e *Env) Snapshot() *snapshot {
 	}
 	_ = k.Auction.Walk(ctx, nil, func(_ uint64, a types.AuctionI) (bool, error) {
 		var base *types.BaseAuction
-		info := &aucInfo{minBid: new(big.Int), remaining: new(big.Int)}
+		info := &aucInfo{minBid: new(big.Int), remaining: new(big.Int), rate: new(big.Int)}
 		switch x := a.(type) {
 		case *types.FixedPriceAuction:
 			base = x.BaseAuction
@@ -133,6 +137,7 @@ func (e *Env) Snapshot() *snapshot {
 			info.batch = true
 			info.minBid = decRaw(x.MinBidPrice)
 			info.maxExt = x.MaxExtendedRound
+			info.rate = decRaw(x.ExtendedRoundRate)
 		}
 		if base == nil {
 			return false, nil
@@ -151,6 +156,12 @@ func (e *Env) Snapshot() *snapshot {
 		}
 		if len(info.ends) > 0 {
 			s.aucs = append(s.aucs, info)
+		}
+		return false, nil
+	})
+	_ = k.MatchedBidsLen.Walk(ctx, nil, func(id uint64, n int64) (bool, error) {
+		if a := s.auc(id); a != nil {
+			a.matchedLen = n
 		}
 		return false, nil
 	})
@@ -214,9 +225,18 @@ type Stats struct {
 	GenesisRoundTrips    int            `json:"genesis_round_trips_ok"`
 	Queries              int            `json:"queries"`
 	MaxBidsInAuction     int            `json:"max_bids_in_one_auction"`
+	MaxBidsInBatch       int            `json:"max_bids_in_one_batch_auction"`
 	FaultsFired          int            `json:"faults_fired"`
 	FailhooksFired       int            `json:"failhooks_fired"`
 	HookLines            int            `json:"hook_lines"`
+	Scenarios            map[string]int `json:"scenario_histories"`
+	ScenariosCompleted   map[string]int `json:"scenarios_played_to_the_end"`
+	ExtendDecisions      int            `json:"extend_decisions"`
+	ExtendDecisionsEq    int            `json:"extend_decisions_with_exact_equality"`
+	ExtendDecisionsNear  int            `json:"extend_decisions_rate_off_by_one_raw_unit"`
+	TypeMismatchBids     int            `json:"type_mismatch_bids"`
+	TypeMismatchValid    int            `json:"type_mismatch_bids_otherwise_valid"`
+	TypeMismatchAccepted int            `json:"type_mismatch_bids_accepted"`
 	BlockErr             int            `json:"block_res_err"`
 	BlockPanic           int            `json:"block_res_panic"`
 	BlockErrUninjected   int            `json:"block_res_err_or_panic_without_injection"`
@@ -227,6 +247,7 @@ func newStats() *Stats {
 	return &Stats{
 		OpsByKind: map[string]int{}, OkByKind: map[string]int{}, ErrByKind: map[string]int{},
 		AuctionsCreated: map[string]int{}, StatusReached: map[string]int{}, BidsPlaced: map[string]int{},
+		Scenarios: map[string]int{}, ScenariosCompleted: map[string]int{},
 	}
 }
 
@@ -262,8 +283,19 @@ func (st *Stats) account(g *Gen, line, res, block string, pre, post *snapshot, i
 				st.BlockErrUninjected++
 			}
 		}
-	case kind == "place" && res == "res ok":
-		st.BidsPlaced[strings.Fields(line)[3]]++
+	case kind == "place":
+		f := strings.Fields(line)
+		var id uint64
+		fmt.Sscanf(f[2], "%d", &id)
+		if a := pre.auc(id); a != nil && len(f) > 3 && ((a.batch && f[3] == "F") || (!a.batch && (f[3] == "W" || f[3] == "M"))) {
+			st.TypeMismatchBids++
+			if res == "res ok" {
+				st.TypeMismatchAccepted++
+			}
+		}
+		if res == "res ok" {
+			st.BidsPlaced[f[3]]++
+		}
 	case kind == "modify" && res == "res ok":
 		st.Modifies++
 	case kind == "genesis" && res == "res ok":
@@ -293,12 +325,27 @@ func (st *Stats) account(g *Gen, line, res, block string, pre, post *snapshot, i
 		if n := len(post.bids[a.id]); n > st.MaxBidsInAuction {
 			st.MaxBidsInAuction = n
 		}
+		if n := len(post.bids[a.id]); a.batch && n > st.MaxBidsInBatch {
+			st.MaxBidsInBatch = n
+		}
 		p := pre.auc(a.id)
 		if p == nil {
 			continue
 		}
 		if len(a.ends) > len(p.ends) {
 			st.ExtensionRounds += len(a.ends) - len(p.ends)
+		}
+		// the extension rule 1 − curr/last >= rate was evaluated in this block
+		if kind == "block" && res == "res ok" && a.batch && p.status == 2 && p.matchedLen > 0 &&
+			uint32(len(p.ends)) != p.maxExt+1 && p.lastEnd() <= g.now && (a.status != 2 || len(a.ends) > len(p.ends)) {
+			st.ExtendDecisions++
+			diff := math.LegacyOneDec().Sub(math.LegacyNewDec(a.matchedLen).Quo(math.LegacyNewDec(p.matchedLen))).BigInt()
+			switch d := new(big.Int).Sub(diff, p.rate); {
+			case d.Sign() == 0:
+				st.ExtendDecisionsEq++
+			case d.CmpAbs(big.NewInt(1)) == 0:
+				st.ExtendDecisionsNear++
+			}
 		}
 		if p.status == 2 && (a.status == 3 || a.status == 4) {
 			if a.batch {
